@@ -121,7 +121,7 @@ class Directory:
         self.light_set.refresh()
         self.log.append(('refresh', [list(x) for x in snapshot]))
         self._model_seen(snapshot)
-        limit = int(self.gc_time)
+        limit = float(self.gc_time)     # seconds; need not be whole
         for name in sorted(self.model):
             group, loc, seen = self.model[name]
             if self.clock.now - seen > limit:
@@ -258,7 +258,7 @@ def snapshots(draw, names=NAMES, groups=GROUPS, locs=LOCS, dups=True):
     return out
 
 
-def machine_class(acc, gc_choices=(0, 1, 30, 100, 300)):
+def machine_class(acc, gc_choices=(0, 1, 2.5, '30.5', 30, 100, 300)):
     class DirectoryMachine(RuleBasedStateMachine):
         def __init__(self):
             super().__init__()
@@ -300,7 +300,8 @@ def machine_class(acc, gc_choices=(0, 1, 30, 100, 300)):
                 self._fail('discover-result',
                            'failed discover() returned {!r}'.format(result))
 
-        @rule(dt=st.sampled_from([0, 1, 29, 30, 31, 70, 100, 101, 250, 301]))
+        @rule(dt=st.sampled_from([0, 0.5, 1, 2.25, 29, 30, 30.25, 31, 70, 100,
+                                  101, 250, 301]))
         def advance(self, dt):
             self._ensure()
             self.dir.advance(dt)
@@ -308,7 +309,12 @@ def machine_class(acc, gc_choices=(0, 1, 30, 100, 300)):
         @rule(snapshot=snapshots())
         def refresh(self, snapshot):
             self._ensure()
-            self.dir.refresh(snapshot)
+            try:
+                self.dir.refresh(snapshot)
+            except Exception as ex:     # noqa: expiry itself must not fail
+                self._fail('refresh-raised', 'refresh() raised {!r} with '
+                           'light_gc_time = {!r}'.format(
+                               ex, self.dir.gc_time))
 
         def _fail(self, sig, what):
             if self.failed is None:
